@@ -50,7 +50,7 @@ TEXT = {
         note="Results of comparisons with an empty side are not asserted (only totality).", ref="4/C09"),
     "C10": dict(
         technique="reference ordered-map model in lock-step under ASan/UBSan",
-        text="Exploration: random histories over FlatMap and ParameterizedObject compared step by step with an insertion-ordered unique-key model; stored values incl. signed zeros (compared bitwise) and a user type whose operator== is partial.",
+        text="Exploration: random histories over FlatMap and ParameterizedObject compared step by step with an insertion-ordered unique-key model; stored values incl. signed zeros (compared bitwise) and a user type whose operator== is partial; operator[] with key copies that throw (failpoint in the key type).",
         note="Small key alphabets; histories <= 30 ops.", ref="4/C10"),
     "C11": dict(
         technique="array model in lock-step + complete read-out after every step under ASan",
@@ -70,7 +70,7 @@ TEXT = {
         note="libtbbmalloc internals are opaque to ASan (DESIGN 3.3).", ref="4/C14"),
     "C15": dict(
         technique="schema round trip on exact-size heap buffers, all truncation points, FixedBufferWriter model, under ASan/UBSan",
-        text="Exploration: generated typed schemas written and read back over exact-size buffers; every truncation point of small streams; vectors whose elements have stream operators of their own; read-back into fresh and into reused destinations; readers whose buffer was shortened under the cursor; capacity x size sequences for FixedBufferWriter against an accept/reject model.",
+        text="Exploration: generated typed schemas written and read back over exact-size buffers; every truncation point of small streams; vectors whose elements have stream operators of their own; read-back into fresh and into reused destinations; readers whose buffer was shortened under the cursor; capacity x size sequences for FixedBufferWriter against an accept/reject model; sizes that wrap cursor+size for BufferReader read/getView and FixedBufferWriter write/reserve.",
         note="Checked for the declared AbstractArray<T> operator.", ref="4/C15"),
     "C16": dict(
         technique="libFuzzer + ASan/UBSan with exception-type oracle; generated-tree round trip; truncation/substitution sweep",
@@ -85,8 +85,8 @@ TEXT = {
         text="Exhaustive over all strings up to length 6 on a delimiter-heavy alphabet (paths to length 7) plus seeded random; every helper compared with an independently written reference and the decomposition laws of the property.",
         note="POSIX separator only.", ref="4/C18"),
     "C19": dict(
-        technique="epoch model in lock-step + stamp uniqueness/monotonicity monitor + ASan + TSan",
-        text="Exploration: random histories over observables/observers incl. both destruction orders against an epoch model under ASan; objects with static storage, with the application linked before the library (plain-appfirst); concurrent time-stamp creation checked for uniqueness and per-thread monotonicity under TSan and plain.",
+        technique="epoch model in lock-step + stamp uniqueness/monotonicity monitor + allocation failpoint + ASan + TSan",
+        text="Exploration: random histories over observables/observers incl. both destruction orders against an epoch model under ASan; objects with static storage, with the application linked before the library (plain-appfirst); concurrent time-stamp creation checked for uniqueness and per-thread monotonicity under TSan and plain; Observer construction with an injected allocation failure (operator-new failpoint): a failed observer must not stay registered.",
         note="Schedules sampled.", ref="4/C19"),
     "C20": dict(
         technique="independent image decoder over exact-size ASan buffers; offline JSON trace checker",
